@@ -10,13 +10,17 @@ import (
 	"crypto/sha256"
 	"fmt"
 	"strings"
+	"time"
 
 	"github.com/elastos/Elastos.ELA/blockchain"
 	"github.com/elastos/Elastos.ELA/common"
 	"github.com/elastos/Elastos.ELA/common/config"
+	"github.com/elastos/Elastos.ELA/core/types"
 	"github.com/elastos/Elastos.ELA/core/types/payload"
 	crstate "github.com/elastos/Elastos.ELA/cr/state"
 	"github.com/elastos/Elastos.ELA/crypto"
+	dlog "github.com/elastos/Elastos.ELA/dpos/log"
+	"github.com/elastos/Elastos.ELA/dpos/manager"
 	"github.com/elastos/Elastos.ELA/dpos/state"
 
 	"verifharness/elaenv"
@@ -127,9 +131,10 @@ func buildArbitersOnly(as []arb, params *config.Configuration) *state.Arbiters {
 func main() {
 	run := lib.ParseArgs()
 	elaenv.InitLog(run.Out)
+	dlog.Init(run.Out, 255, 0, 0)
 	rng := lib.NewRng(run.Seed)
-	st := lib.NewStats("C25", "arbiter sets of 0..36 members inside a larger producer registry (registered-but-not-elected candidates, next-round CR nodes) (real secp256r1 keys; abnormal CRC members and a duplicated member occasionally) x confirmations whose number of distinct good signers is majority-1 .. majority+2 or all, polluted with duplicates, re-signed duplicates, reject votes, foreign signers, abnormal-arbiter signers, wrong proposal hash, corrupted / foreign-key / empty signatures, undecodable signer keys; sponsors: arbiter / foreign / abnormal / bad proposal signature. nontrivial = at least majority-1 distinct good signers (accept path or quorum boundary); distinct by (n, composition, verdicts)")
-	sh := &lib.Shards{Dir: run.Out, Imports: "From ELA Require Import model.C25_Confirm corr.C25_corr.", CaseType: "C25_corr.case",
+	st := lib.NewStats("C25", "arbiter sets of 0..36 members inside a larger producer registry (registered-but-not-elected candidates, next-round CR nodes) (real secp256r1 keys; abnormal CRC members and a duplicated member occasionally) x confirmations whose number of distinct good signers is majority-1 .. majority+2 or all, polluted with duplicates, re-signed duplicates, reject votes, foreign signers, abnormal-arbiter signers, wrong proposal hash, corrupted / foreign-key / empty signatures, undecodable signer keys; sponsors: arbiter / foreign / abnormal / bad proposal signature; vote streams delivered to the real ProposalDispatcher through the on-duty and normal handlers under both message commands (good accepts one short of the quorum, then reject-under-accept-command, accept-under-reject-command, re-signed duplicates, foreign/abnormal signers, wrong hash, bad signatures, genuine rejects up to the rejecting minority, parked votes). nontrivial = at least majority-1 distinct good signers (accept path or quorum boundary); distinct by (n, composition, verdicts)")
+	sh := &lib.Shards{Dir: run.Out, Imports: "From ELA Require Import model.C25_Confirm model.C25_Dispatch corr.C25_corr.", CaseType: "C25_corr.case",
 		Mismatch: "C25_corr.mismatches", Scope: "Z", PerShard: 150}
 	id := 0
 	next := func() int { id++; return id }
@@ -531,6 +536,281 @@ func main() {
 	}
 	for i := 0; i < run.N(60, 4000); i++ {
 		doSet(rng.Range(1, 36), "random")
+	}
+
+	// ------------------------------------------------------------ vote collection (ProposalDispatcher)
+	// Streams of votes delivered to a real ProposalDispatcher through the real
+	// on-duty / normal handlers under either message command.
+	poolWaits := 0
+	doStream := func(as []arb, kind string) {
+		n := len(as)
+		var normals, abnormals, foreign []key
+		inSet := map[string]bool{}
+		for _, a := range as {
+			inSet[string(a.k.pub)] = true
+			if a.normal {
+				normals = append(normals, a.k)
+			} else {
+				abnormals = append(abnormals, a.k)
+			}
+		}
+		if len(normals) == 0 {
+			return
+		}
+		for _, k := range pool {
+			if !inSet[string(k.pub)] {
+				foreign = append(foreign, k)
+			}
+		}
+		nc := len(foreign) / 2
+		arbs := buildArbiters(as, &params, foreign[:nc], foreign[nc:nc+3])
+		blockchain.DefaultLedger = &blockchain.Ledger{Arbitrators: arbs}
+		w := manager.NewDispatcherVerif(arbs, &params, as[0].k.pub)
+		block := &types.Block{}
+		block.Header.Nonce = uint32(rng.U64())
+		sp := normals[rng.Intn(len(normals))]
+		prop := &payload.DPOSProposal{Sponsor: sp.pub, BlockHash: block.Hash()}
+		prop.Sign, _ = crypto.Sign(sp.pri, prop.Data())
+		ph := prop.Hash()
+		var otherHash common.Uint256
+		copy(otherHash[:], rng.Bytes(32))
+		maj := arbs.GetArbitersMajorityCount()
+		minority := n - maj
+
+		truth := map[string]bool{} // signature bytes -> validly signed by its signer over its own content
+		mk := func(k key, h common.Uint256, accept bool) *payload.DPOSProposalVote {
+			v := &payload.DPOSProposalVote{ProposalHash: h, Signer: k.pub, Accept: accept}
+			signVote(k, v)
+			truth[string(v.Sign)] = true
+			return v
+		}
+		perm := make([]int, len(normals))
+		for i := range perm {
+			perm[i] = i
+		}
+		for i := len(perm) - 1; i > 0; i-- {
+			j := rng.Intn(i + 1)
+			perm[i], perm[j] = perm[j], perm[i]
+		}
+		voter := func(i int) key { return normals[perm[i%len(normals)]] }
+		filler := func(kindF string, i int) (*payload.DPOSProposalVote, bool) { // vote, command
+			switch kindF {
+			case "reject-as-accept": // a genuine reject vote carried by an accept-vote message
+				return mk(voter(i), ph, false), true
+			case "accept-as-reject":
+				return mk(voter(i), ph, true), false
+			case "dup-resigned":
+				return mk(voter(i), ph, true), true
+			case "foreign":
+				return mk(foreign[rng.Intn(len(foreign))], ph, true), true
+			case "abnormal":
+				if len(abnormals) > 0 {
+					return mk(abnormals[rng.Intn(len(abnormals))], ph, true), true
+				}
+				return mk(foreign[0], ph, true), true
+			case "wronghash":
+				return mk(voter(i), otherHash, true), true
+			case "badsig":
+				v := mk(voter(i), ph, true)
+				v.Sign = flip(v.Sign)
+				return v, true
+			case "foreignkeysig":
+				v := &payload.DPOSProposalVote{ProposalHash: ph, Signer: voter(i).pub, Accept: true}
+				signVote(foreign[rng.Intn(len(foreign))], v)
+				return v, true
+			default: // "reject": genuine reject under the reject command
+				return mk(voter(i), ph, false), false
+			}
+		}
+		fillKinds := []string{"reject-as-accept", "accept-as-reject", "dup-resigned", "foreign", "abnormal", "wronghash", "badsig", "foreignkeysig", "reject"}
+
+		type delivery struct {
+			v    *payload.DPOSProposalVote
+			cmd  bool
+			via  string // pend | duty | normal
+			what string
+		}
+		var pre, body []delivery
+		// parked votes before the proposal arrives: never enough to finish by themselves
+		nPre := 0
+		if rng.Chance(40) {
+			nPre = rng.Intn(3)
+			if nPre > maj {
+				nPre = maj
+			}
+			for i := 0; i < nPre; i++ {
+				pre = append(pre, delivery{mk(voter(i), ph, true), true, "pend", "good"})
+			}
+			if rng.Chance(50) {
+				v, _ := filler([]string{"wronghash", "badsig", "foreign"}[rng.Intn(3)], 0)
+				pre = append(pre, delivery{v, true, "pend", "parked-defect"})
+			}
+			if minority >= 2 && rng.Chance(30) {
+				pre = append(pre, delivery{mk(voter(nPre), ph, false), false, "pend", "parked-reject"})
+			}
+		}
+		// good accepts up to the majority count (one short of the quorum), then fillers, then maybe the rest
+		d := maj
+		if kind == "random" {
+			d = rng.Intn(maj + 1)
+		}
+		if d > len(normals) {
+			d = len(normals)
+		}
+		for i := nPre; i < d; i++ {
+			body = append(body, delivery{mk(voter(i), ph, true), true, "", "good"})
+		}
+		fk := kind
+		for c := 0; c < 1+rng.Intn(3); c++ {
+			if kind == "random" || kind == "mixed" {
+				fk = fillKinds[rng.Intn(len(fillKinds))]
+			}
+			v, cmd := filler(fk, rng.Intn(d+1))
+			body = append(body, delivery{v, cmd, "", fk})
+			if rng.Chance(25) { // the very same message again
+				body = append(body, delivery{v, cmd, "", fk + "-again"})
+			}
+		}
+		if rng.Chance(60) {
+			for i := d; i < len(normals) && i < d+2; i++ {
+				body = append(body, delivery{mk(voter(i), ph, true), true, "", "good"})
+			}
+		}
+		if kind == "random" {
+			for i := len(body) - 1; i > 0; i-- {
+				j := rng.Intn(i + 1)
+				body[i], body[j] = body[j], body[i]
+			}
+		}
+
+		// ---- run it on the implementation
+		var ops, tr, vt []string
+		seen := map[string]bool{}
+		term := func(v *payload.DPOSProposalVote) string {
+			k, h, sg := keyReg.id(v.Signer), hashReg.id(v.ProposalHash[:]), sigReg.id(v.Sign)
+			if truth[string(v.Sign)] && !seen[string(v.Sign)] {
+				seen[string(v.Sign)] = true
+				vt = append(vt, fmt.Sprintf("(%d, %d, %s, %d)", k, h, lib.CoqBool(v.Accept), sg))
+			}
+			return fmt.Sprintf("(V %d %d %s %d)", h, k, lib.CoqBool(v.Accept), sg)
+		}
+		var steps []map[string]interface{}
+		checkQuorum := func(what string) {
+			acc := w.AcceptVotes()
+			good := map[string]bool{}
+			for _, v := range acc {
+				if v.Accept && v.ProposalHash == ph && truth[string(v.Sign)] && inSet[string(v.Signer)] {
+					good[string(v.Signer)] = true
+				}
+			}
+			desc := map[string]interface{}{"arbiters": n, "majority": maj, "collected_accept_votes": len(acc), "distinct_good_accepting_arbiters": len(good), "kind": kind, "after": what, "deliveries": steps}
+			if 3*len(good) <= 2*n {
+				st.Fail("ProposalDispatcher:quorum-without-two-thirds", "the dispatcher declared the quorum although at most two thirds of the arbiters cast a valid accepting vote for the proposal", desc)
+			}
+			conf := &payload.Confirm{Proposal: *prop, Votes: acc} // what AppendConfirm assembles
+			e1, e2 := blockchain.ConfirmSanityCheck(conf), blockchain.ConfirmContextCheck(conf)
+			if e1 != nil || e2 != nil {
+				st.Fail("ProposalDispatcher:assembled-confirm-invalid", fmt.Sprintf("the confirm assembled at the quorum does not pass ConfirmSanityCheck/ConfirmContextCheck: %v %v", e1, e2), desc)
+			} else if poolWaits < 40 {
+				// the real AppendConfirm hands it to the block pool asynchronously
+				poolWaits++
+				ok := false
+				for t := 0; t < 300 && !ok; t++ {
+					_, ok = w.Pool.GetConfirm(prop.BlockHash)
+					if !ok {
+						time.Sleep(10 * time.Millisecond)
+					}
+				}
+				if !ok {
+					st.Fail("ProposalDispatcher:confirm-not-pooled", "the dispatcher finished the proposal but no confirm for the block reached the block pool", desc)
+				}
+			}
+		}
+		deliver := func(dl delivery) {
+			processing := w.D.GetProcessingProposal() != nil
+			via := dl.via
+			if via == "" {
+				via = []string{"duty", "normal"}[rng.Intn(2)]
+			}
+			if via == "normal" && !processing {
+				via = "pend" // what the normal handler does without a processing proposal
+			}
+			var s, f bool
+			switch via {
+			case "pend":
+				w.D.AddPendingVote(dl.v)
+				ops = append(ops, "OPend "+term(dl.v))
+			case "duty":
+				if dl.cmd {
+					s, f = w.OnDutyAccept(dl.v)
+				} else {
+					s, f = w.OnDutyReject(dl.v)
+				}
+				ops = append(ops, fmt.Sprintf("ODuty %s %s", term(dl.v), lib.CoqBool(dl.cmd)))
+			default:
+				if dl.cmd {
+					s, f = w.NormalAccept(dl.v)
+				} else {
+					s, f = w.NormalReject(dl.v)
+				}
+				ops = append(ops, fmt.Sprintf("ONormal %s %s", term(dl.v), lib.CoqBool(dl.cmd)))
+			}
+			tr = append(tr, fmt.Sprintf("(%s, %s)", lib.CoqBool(s), lib.CoqBool(f)))
+			steps = append(steps, map[string]interface{}{"vote": dl.what, "accept_flag": dl.v.Accept, "command_accept": dl.cmd, "via": via, "succeed": s, "finished": f})
+			if f && w.D.GetProcessingProposal() != nil {
+				checkQuorum(dl.what)
+			}
+		}
+		panicked, pv := lib.Recover(func() {
+			for _, dl := range pre {
+				deliver(dl)
+			}
+			fin := w.Start(block, prop)
+			ops = append(ops, fmt.Sprintf("OStart (P %d %d %d)", keyReg.id(prop.Sponsor), hashReg.id(ph[:]), sigReg.id(prop.Sign)))
+			tr = append(tr, fmt.Sprintf("(%s, %s)", lib.CoqBool(fin), lib.CoqBool(fin)))
+			steps = append(steps, map[string]interface{}{"start": true, "finished": fin})
+			for _, dl := range body {
+				deliver(dl)
+			}
+		})
+		if panicked {
+			st.Fail("ProposalDispatcher:panic", fmt.Sprint(pv), map[string]interface{}{"arbiters": n, "kind": kind, "deliveries": steps})
+			return
+		}
+		var arbTerms, accT, rejT []string
+		for _, a := range as {
+			arbTerms = append(arbTerms, fmt.Sprintf("A %d %s", keyReg.id(a.k.pub), lib.CoqBool(a.normal)))
+		}
+		acc, rej := w.AcceptVotes(), w.RejectedVotes()
+		for i := range acc {
+			accT = append(accT, term(&acc[i])[1:len(term(&acc[i]))-1])
+		}
+		for i := range rej {
+			rejT = append(rejT, term(&rej[i])[1:len(term(&rej[i]))-1])
+		}
+		processing := w.D.GetProcessingProposal() != nil
+		i := next()
+		sh.Add(fmt.Sprintf("CDispatch %d %s %d %s %s %s %s %s %s", i, lib.CoqList(arbTerms), fallback, lib.CoqList(vt), lib.CoqList(ops),
+			lib.CoqList(tr), lib.CoqList(accT), lib.CoqList(rejT), lib.CoqBool(processing)))
+		declared := arbs.HasArbitersMajorityCount(len(acc)) && processing
+		desc := map[string]interface{}{"op": "ProposalDispatcher vote stream", "arbiters": n, "majority": maj, "kind": kind, "deliveries": steps, "accept_votes": len(acc), "rejected_votes": len(rej), "processing": processing, "quorum": declared}
+		st.LogCase(run.Out, i, desc)
+		st.Count(fmt.Sprintf("ds:%d:%s:%v", n, kind, steps), len(acc) >= maj && n > 1, "dispatch:"+kind)
+		if declared {
+			st.Hist["dispatch-quorum-declared"]++
+		}
+		if i%53 == 0 {
+			st.Sample(desc)
+		}
+	}
+	streamKinds := []string{"reject-as-accept", "accept-as-reject", "dup-resigned", "foreign", "abnormal", "wronghash", "badsig", "foreignkeysig", "reject", "mixed", "random"}
+	for n := 1; n <= 36; n++ {
+		as := mkSet(n)
+		doStream(as, "reject-as-accept")
+		doStream(as, streamKinds[rng.Intn(len(streamKinds))])
+	}
+	for i := 0; i < run.N(80, 4000); i++ {
+		doStream(mkSet(rng.Range(1, 36)), streamKinds[rng.Intn(len(streamKinds))])
 	}
 	st.Traces = st.Evals
 	sh.Flush()
